@@ -162,7 +162,7 @@ PROFILES.update({
              "kcall_deaths": 0.6, "die_untracked": 0.3,
              "cmds": ["start", "stop", "incr", "decr", "kill", "restart", "list", "numprocesses", "rm"],
              "norespawn": True},
-    "overlap": {"sigstop": 0.5, "faults": 0.2, "Gs": [0.2, 0.3, 0.5, 1.0], "cmds": ["kill", "kill", "signal", "stop", "restart", "reload", "start", "incr", "decr", "decr", "set_np", "status", "list",
+    "overlap": {"sigstop": 0.5, "faults": 0.2, "max_age": 0.35, "Gs": [0.2, 0.3, 0.5, 1.0], "cmds": ["kill", "kill", "signal", "stop", "restart", "reload", "start", "incr", "decr", "decr", "set_np", "status", "list",
                          "numprocesses", "get", "globaloptions", "listsockets", "options", "stats"], "stubborn": 0.6, "partial": 0.5, "steps": 20},
     "events": {"cmds": ["incr", "decr", "set_np", "reload", "kill", "stop", "start", "restart", "status", "status", "signal", "signal"],
                "kcall_deaths": 0.5, "sigsoft": 0.6, "sigrec": 0.6, "fork": 0.15, "steps": 30},
@@ -518,6 +518,25 @@ def term_profile(seed):
             "script": s}
 
 
+def _expiry_during_kill(seed):
+    """template: a worker reaches max_age while a non-exclusive `kill` of it is still inside its grace period (the
+    worker ignores the stop signal): the periodic check finds it expired and must leave it to the kill in flight."""
+    import random
+    rng = random.Random(seed)
+    ws = [{"name": "w1", "np": rng.choice([1, 2]), "G": rng.choice([0.3, 0.5]), "W": 0.0, "max_age": 1, "max_age_variance": 0},
+          {"name": "w2", "np": 1, "G": 0.2, "W": 0.0}]
+    s = [{"op": "boot"}, {"op": "advance", "dt": rng.choice([0.6, 0.7, 0.8, 0.9])},
+         {"op": "req", "cmd": "kill", "props": {"name": "w1", "pidsel": rng.randint(0, 1), "waiting": False,
+                                                "graceful_timeout": rng.choice([1.0, 1.5, 2.0])}}]
+    for _ in range(rng.randint(20, 35)):
+        s.append({"op": "tick", "n": 1})
+        if rng.random() < 0.12:
+            s.append({"op": "req", "cmd": rng.choice(["status", "list", "numprocesses"]), "props": {"name": "w2"}})
+    s.append({"op": "end", "xprobe": False, "passes": 1})
+    return {"seed": seed, "watchers": ws, "check_delay": rng.choice([0.5, 0.3]), "warmup_delay": 0.0,
+            "stubborn": ["w1"], "obeys": [True], "instant_death": False, "script": s}
+
+
 def _jobcontrol(seed):
     """template: workers are STOPPED (job control: SIGSTOP / SIGTSTP through a `signal` request), periodic checks and
     requests go on while they are, some are continued later.  A stopped worker is a live worker."""
@@ -551,6 +570,8 @@ def overlap_profile(seed):
     import random
     if seed % 6 == 1:
         return _jobcontrol(seed)
+    if seed % 6 == 4:
+        return _expiry_during_kill(seed)
     if seed % 3 != 0:
         return scenario.gen_scenario(seed, _OVERLAP_BASE)
     rng = random.Random(seed)
